@@ -72,6 +72,205 @@ def gen_targets(rng, chk):
     return out
 
 
+def canon(plain):
+    return [[int(x), int(y), sorted(int(c) for c in cs)] for (x, y), cs in sorted(plain.items())]
+
+
+def ff_event(plain, pairs):
+    return ["ff", canon(plain), [word_bytes(int(r)) + [int(m)] for r, m in pairs]]
+
+
+def call_ff(arg):
+    """compress_flood_fill_regions on any argument; an exception of rig becomes an (ill-formed) pair, never a crash"""
+    try:
+        return list(regions.compress_flood_fill_regions(arg)), None
+    except Exception as exc:                                   # judged: WellFormedWords rejects the zero word
+        return [(0, 0)], "%s: %s" % (type(exc).__name__, str(exc)[:80])
+
+
+SHAPES = ("list with repeats", "tuple", "frozenset", "one-shot iterator", "reversed OrderedDict", "shuffled dict",
+          "defaultdict", "numpy int64")
+
+
+def dress(plain, shape, rng):
+    """the same target set as another legal argument object (the answer is a function of the set it denotes)"""
+    import collections
+    items = sorted(plain.items())
+    if shape == "list with repeats":
+        out = {}
+        for k, cs in items:
+            lst = [c for c in cs for _ in range(rng.randint(1, 3))]
+            rng.shuffle(lst)
+            out[k] = lst
+        return out
+    if shape == "tuple":
+        return {k: tuple(sorted(cs, reverse=True)) for k, cs in items}
+    if shape == "frozenset":
+        return {k: frozenset(cs) for k, cs in items}
+    if shape == "one-shot iterator":
+        return {k: iter(sorted(cs)) for k, cs in items}
+    if shape == "reversed OrderedDict":
+        return collections.OrderedDict((k, set(cs)) for k, cs in reversed(items))
+    if shape == "shuffled dict":
+        rng.shuffle(items)
+        return {k: set(cs) for k, cs in items}
+    if shape == "defaultdict":
+        out = collections.defaultdict(set)
+        rng.shuffle(items)
+        for k, cs in items:
+            out[k] |= set(cs)
+        return out
+    if shape == "numpy int64":
+        import numpy
+        return {(numpy.int64(x), numpy.int64(y)): set(numpy.int64(c) for c in cs) for (x, y), cs in items}
+    raise ValueError(shape)
+
+
+def gen_far(rng, chk, traces):
+    """the far ends of the quantifier that the structured sets above do not reach: the top of the hierarchy (the whole
+    256 x 256 machine, several 64 x 64 blocks in one level-0 word), all eighteen cores, chips with an empty core set,
+    other legal argument objects, and the tree used as its docstring describes it (a sequence of add_core calls, with
+    cores named more than once, two trees alive at once, read out more than once)"""
+    c1, c2 = rng.sample(range(18), 2)
+    # ---- whole machine
+    whole = block(0, 0, 256, [c1])
+    w2 = {k: set(v) for k, v in whole.items()}
+    w2.pop((rng.randrange(256), rng.randrange(256)))
+    bl = rng.sample([(bx, by) for bx in range(4) for by in range(4)], 4)
+    w3 = {}
+    w3.update(block(64 * bl[0][0], 64 * bl[0][1], 64, [c1]))
+    w3.update(block(64 * bl[1][0], 64 * bl[1][1], 64, [c1]))
+    w3.update(block(64 * bl[2][0], 64 * bl[2][1], 64, [c1, c2]))
+    w3.update(block(64 * bl[3][0] + 16, 64 * bl[3][1] + 32, 16, [c2]))
+    big = [("whole machine one chip short, chips in shuffled order", w2, "shuffled dict"),
+           ("three full 64x64 blocks (two cores) and a 16x16 block", w3, "shuffled dict")]
+    for label, plain, shape in big:
+        pairs, exc = call_ff(dress(plain, shape, rng) if shape else plain)
+        traces.append(dict(ev=[ff_event(plain, pairs)], label=label + (" - " + exc if exc else "")))
+        chk.note_case(("far", label, len(plain), c1, c2), nontrivial=True)
+        chk.count("whole-machine / level-0 target sets")
+    # ---- plain sets to be dressed: blocks that collapse twice, all eighteen cores, empty core sets, a window
+    def pool():
+        x16, y16 = 16 * rng.randrange(16), 16 * rng.randrange(16)
+        p1 = block(x16, y16, 16, [c1, c2])
+        for _ in range(3):
+            p1[(x16 + rng.randrange(16), y16 + rng.randrange(16))].add((c2 + 1) % 18)
+        x4, y4 = 4 * rng.randrange(64), 4 * rng.randrange(64)
+        p2 = block(x4, y4, 4, range(18))
+        p2[((x4 + 4) % 256, y4)] = set(range(18))
+        p2[((x4 + 5) % 256, y4)] = set(range(18)) - {rng.randrange(18)}
+        p3 = block(x16, y16, 16, range(18))
+        p3.pop((x16 + rng.randrange(16), y16 + rng.randrange(16)))
+        p4 = {}
+        xw, yw = rng.randrange(240), rng.randrange(240)
+        for _ in range(rng.randint(20, 120)):
+            p4.setdefault((xw + rng.randrange(9), yw + rng.randrange(9)), set()).add(rng.choice((0, 1, 16, 17)))
+        for _ in range(4):                                      # chips named with no core: nothing is requested there
+            p4[(xw + rng.randrange(12), yw + rng.randrange(12))] = set()
+        p5 = {(rng.randrange(256), rng.randrange(256)): set()}
+        return [p1, p2, p3, p4, p5]
+    for shape in SHAPES:
+        for plain in pool():
+            pairs, exc = call_ff(dress(plain, shape, rng))
+            traces.append(dict(ev=[ff_event(plain, pairs)], label="argument shape: " + shape + (" - " + exc if exc else "")))
+            chk.note_case(("shape", shape, canon(plain)[:40]), nontrivial=len(plain) > 1)
+            chk.count("target sets given as " + shape)
+    # every core of one dictionary in one shared set object (the caller built the map with one set per application)
+    shared = set([c1, c2])
+    plain = block(16 * rng.randrange(16), 16 * rng.randrange(16), 16, shared)
+    arg = {k: shared for k in plain}
+    pairs, exc = call_ff(arg)
+    traces.append(dict(ev=[ff_event(plain, pairs)], label="one set object shared by all chips" + (" - " + exc if exc else "")))
+    # ---- the tree itself: add_core sequences in which cores are named again (before and after their block has
+    # collapsed), read out part-way and twice at the end; the pairs are sorted as compress_flood_fill_regions does
+    broken = set()                                              # trees whose add_core raised: an exception of rig
+    def read(tree, sofar):                                      # is reported as an ill-formed pair, never a crash
+        try:
+            pairs = sorted(tree.get_regions_and_coremasks())
+        except Exception:
+            pairs = [(0, 0)]
+        return ff_event(sofar, [(0, 0)] if id(tree) in broken else pairs)
+    def feed(tree, sofar, x, y, p):
+        sofar.setdefault((x, y), set()).add(p)
+        try:
+            tree.add_core(x, y, p)
+        except Exception:
+            chk.count("add_core raised on an in-range core")
+            broken.add(id(tree))
+    for rep in range(chk.pick(6, 60)):
+        kind = rep % 3 if rep < 3 or not chk.quick else 2 * (rep % 2)    # one 64x64 sequence in the quick tier
+        if kind == 0:
+            x0, y0 = 16 * rng.randrange(16), 16 * rng.randrange(16)
+            plain = block(x0, y0, 16, [c1])
+            for k in rng.sample(sorted(plain), 40):
+                plain[k].add(c2)
+        elif kind == 1:
+            x0, y0 = 64 * rng.randrange(4), 64 * rng.randrange(4)
+            plain = block(x0, y0, 64, [c2])
+            plain.update(block(x0 + 16, y0 + 48, 16, [c1, c2]))
+            plain.pop((x0 + rng.randrange(64), y0 + rng.randrange(64)))
+        else:
+            plain = {}
+            xw, yw = rng.randrange(248), rng.randrange(248)
+            for _ in range(rng.randint(30, 150)):
+                plain.setdefault((xw + rng.randrange(8), yw + rng.randrange(8)), set()).add(rng.choice((c1, c2, 17)))
+        seq = [(x, y, p) for (x, y), cs in sorted(plain.items()) for p in sorted(cs)]
+        rng.shuffle(seq)
+        tree, sofar, evs = regions.RegionCoreTree(), {}, []
+        marks = set(len(seq) * q // 4 for q in ((1, 2, 3) if kind != 1 else (2,)))
+        for n, (x, y, p) in enumerate(seq, 1):
+            feed(tree, sofar, x, y, p)
+            if rng.random() < 0.15:                             # named again straight away / an earlier one again
+                feed(tree, sofar, *rng.choice(seq[:n]))
+            if n in marks:
+                evs.append(read(tree, sofar))
+        evs.append(read(tree, sofar))
+        again = list(seq)
+        rng.shuffle(again)
+        for x, y, p in again[:max(50, len(again) // 3)]:        # after every block that could collapse has collapsed
+            feed(tree, sofar, x, y, p)
+        evs.append(read(tree, sofar))
+        if kind != 1:
+            evs.append(read(tree, sofar))                       # reading out changes nothing
+        traces.append(dict(ev=evs, label="add_core sequence with cores named again"))
+        chk.note_case(("again", kind, canon(plain)[:30]), nontrivial=True)
+        chk.count("add_core sequences with cores named again")
+    # the whole machine through the tree, then some of its cores named again
+    tree, sofar = regions.RegionCoreTree(), {}
+    for (x, y) in sorted(whole):
+        feed(tree, sofar, x, y, c2)
+    for _ in range(200):
+        feed(tree, sofar, rng.randrange(256), rng.randrange(256), c2)
+    for _ in range(3):                                          # and a second core on three chips
+        feed(tree, sofar, rng.randrange(256), rng.randrange(256), c1)
+    traces.append(dict(ev=[read(tree, sofar)], label="whole machine by add_core, cores named again"))
+    chk.count("whole-machine / level-0 target sets")
+    # ---- two trees alive at once, fed alternately
+    for rep in range(chk.pick(4, 40)):
+        x0, y0 = 16 * rng.randrange(15), 16 * rng.randrange(16)
+        pa = block(x0, y0, 16, [c1]) if rep % 2 == 0 else block(x0 + 4, y0 + 4, 4, [c1, c2])
+        pb = block(x0, y0, 4, [c1])
+        pb.update(block(x0 + 16, y0, 16, [c2]))
+        for k in rng.sample(sorted(pb), 5):
+            pb[k].add(c1)
+        sa = [(x, y, p) for (x, y), cs in sorted(pa.items()) for p in sorted(cs)]
+        sb = [(x, y, p) for (x, y), cs in sorted(pb.items()) for p in sorted(cs)]
+        rng.shuffle(sa); rng.shuffle(sb)
+        ta, tb, fa, fb, ea, eb = regions.RegionCoreTree(), regions.RegionCoreTree(), {}, {}, [], []
+        while sa or sb:
+            if sa and (not sb or rng.random() < 0.5):
+                feed(ta, fa, *sa.pop())
+            else:
+                feed(tb, fb, *sb.pop())
+            if rng.random() < 0.01:
+                ea.append(read(ta, fa)); eb.append(read(tb, fb))
+        ea.append(read(ta, fa)); eb.append(read(tb, fb)); ea.append(read(ta, fa))
+        traces.append(dict(ev=ea, label="two trees alive at once (first)"))
+        traces.append(dict(ev=eb, label="two trees alive at once (second)"))
+        chk.note_case(("two trees", x0, y0, rep % 2), nontrivial=True)
+        chk.count("pairs of trees fed alternately")
+
+
 def run(chk):
     rng = random.Random(chk.seed)
     chk.design("RegionsDesign", "RegionsDesign.cfg", expect_actions=("AddCore",))
@@ -110,6 +309,8 @@ def run(chk):
             else:
                 t[((xy[0] + 1) % 256, xy[1])] = {rng.randrange(18)}
         traces.append(dict(ev=evs, label="one dictionary changed in place between calls"))
+    # the far ends (own generator state: the families above stay what they were for a given seed)
+    gen_far(random.Random(chk.seed * 7919 + 12), chk, traces)
     # the pairs as they are PRODUCED FOR A FLOOD FILL: MachineController.flood_fill_aplx with an application map of
     # two or three binaries against the simulated machine; the core-select packets the machine received between the
     # start and the end of each fill are that binary's pairs (the fill is matched to its binary by the data it
@@ -194,7 +395,11 @@ def run(chk):
 
     chk.rule = ("target sets: sparse random; full, one-chip-short, mixed-core and two-core 4x4 / 16x16 / 64x64 blocks at "
                 "aligned and straddling positions; cores 16/17; dense random 9x9 windows; empty set; random "
-                "get_region_for_chip calls at all four levels. non-trivial = more than one target chip; distinct = "
+                "get_region_for_chip calls at all four levels; the whole 256 x 256 machine (full, one chip short, by add_core), "
+                "several 64x64 blocks in one level-0 word, all eighteen cores, chips with an empty core set, the same sets "
+                "as lists with repeats / tuples / frozensets / iterators / OrderedDict / defaultdict / numpy integers / one "
+                "shared set object, add_core sequences naming cores again after their block collapsed, two trees alive at "
+                "once. non-trivial = more than one target chip; distinct = "
                 "distinct target set")
     chk.exhaustive = False
     chk.sample(traces[0]["ev"][0]); chk.sample(traces[-2]["ev"][0]); chk.sample(evs[0])
